@@ -598,7 +598,7 @@ func splitPhiCases(v ssa.Value, blk *ssa.BasicBlock, extra []Fact, depth int) []
 
 func init() {
 	register(&Rule{
-		ID: "window.readers-refresh-current", Props: []string{"C08"}, Floor: 4,
+		ID: "window.readers-refresh-current", Props: []string{"C08", "C09"}, Floor: 4,
 		Doc: "isBucketDeprecated is the strict test now-start > interval, so a bucket exactly one interval old still counts as live; it sits in the slot that `now` maps to. Every BucketLeapArray reader that collects all live buckets (valuesWithTime / Values of the underlying LeapArray) therefore first refreshes that slot (currentBucketOfTime / CurrentBucket on the same array), which resets the stale bucket. (If the deprecation test becomes >=, the refresh is not required and the rule holds trivially.)",
 		Run: func(c *Ctx) {
 			dep := c.P.Func(sbPkg + ".(*LeapArray).isBucketDeprecated")
@@ -656,6 +656,75 @@ func init() {
 					continue
 				}
 				c.Info(fnKey(f)+" / collects-all-live-buckets", ci.Pos(), "outside core/stat/base: review that the caller refreshes the current slot first")
+			}
+		},
+	})
+}
+
+func init() {
+	register(&Rule{
+		ID: "window.bucket-reset-complete", Props: []string{"C08", "C09"}, Floor: 3,
+		Doc: "MetricBucket.reset (run when a slot is recycled for a new period) restores, on every path, each field to the value NewMetricBucket gives it: all counters 0, minRt = DefaultStatisticMaxRt, maxConcurrency 0 - unconditionally. A field restored only under a condition on the old contents (e.g. 'only if some response time was recorded') lets a figure of an expired period decide a later window",
+		Run: func(c *Ctx) {
+			reset := c.P.Func(sbPkg + ".(*MetricBucket).reset")
+			ctor := c.P.Func(sbPkg + ".NewMetricBucket")
+			mbT := c.P.Named(sbPkg + ".MetricBucket")
+			if reset == nil || ctor == nil || mbT == nil {
+				c.AnchorLost("MetricBucket.reset / NewMetricBucket")
+				return
+			}
+			// initial values from the constructor (fields not set there are zero)
+			init := map[string]string{}
+			eachInstr(ctor, func(ins ssa.Instruction) {
+				if st, ok := ins.(*ssa.Store); ok {
+					if fa, ok := st.Addr.(*ssa.FieldAddr); ok && namedOf(fa.X.Type()) == mbT {
+						init[fieldName(fa.X.Type(), fa.Field)] = accessPath(st.Val)
+					}
+				}
+			})
+			st := mbT.Underlying().(*types.Struct)
+			for i := 0; i < st.NumFields(); i++ {
+				name := st.Field(i).Name()
+				want, ok := init[name]
+				if !ok {
+					want = "0"
+				}
+				_, isArr := st.Field(i).Type().Underlying().(*types.Array)
+				isStore := func(x ssa.Instruction) bool {
+					ci, ok := x.(ssa.CallInstruction)
+					if !ok || !isExtCall(ci, "sync/atomic.StoreInt64", "sync/atomic.StoreInt32", "sync/atomic.SwapInt64", "sync/atomic.SwapInt32", "sync/atomic.StoreUint64", "sync/atomic.StoreUint32") {
+						return false
+					}
+					p := accessPath(ci.Common().Args[0])
+					if !strings.Contains(p, "{MetricBucket}."+name) {
+						return false
+					}
+					return isArr || accessPath(ci.Common().Args[1]) == want || accessPath(stripConv(ci.Common().Args[1])) == want
+				}
+				ok2 := true
+				for _, r := range returnsOf(reset) {
+					if !mustBeforeInstr(r, isStore, nil) {
+						ok2 = false
+					}
+				}
+				if isArr {
+					// the store sits in a loop: must-before cannot see it on the zero-iteration path; require the store and a loop bound that is a constant
+					found, constBound := false, false
+					eachInstr(reset, func(x ssa.Instruction) {
+						if isStore(x) {
+							found = true
+							for _, ft := range condFacts(x.Block()) {
+								if b, ok := ft.Cond.(*ssa.BinOp); ok {
+									if _, isC := b.Y.(*ssa.Const); isC {
+										constBound = true
+									}
+								}
+							}
+						}
+					})
+					ok2 = found && constBound
+				}
+				c.Check(ok2, fnKey(reset)+" / restores "+name, reset.Pos(), "field %s is restored to %s on every path of reset", name, want)
 			}
 		},
 	})
